@@ -206,6 +206,14 @@ func genHints(r *rand.Rand) (*Hints, []string) {
 	}
 	h.Step = []int64{0, 0, 1, 1000, 5000, 7000, 14999, 15000, 30000, 60000, 300000}[r.Intn(11)]
 	h.Range = []int64{0, 0, 1000, 5000, 14999, 15000, 60000, 300000, 3600000}[r.Intn(9)]
+	if r.Intn(14) == 0 { // the down-sampled count_over_time: the only request that installs MapResult
+		h.Func = "count_over_time"
+		h.Start -= h.Start % 15000
+		h.End = h.Start + int64(1+r.Intn(240))*15000
+		h.Step = []int64{15000, 30000, 60000, 300000}[r.Intn(4)]
+		h.Range = []int64{0, 15000, 60000, 300000}[r.Intn(4)]
+		class = append(class, "map-result")
+	}
 	if strings.HasSuffix(h.Func, "_over_time") || h.Func == "rate" || h.Func == "irate" {
 		if h.Range == 0 && r.Intn(4) != 0 {
 			h.Range = []int64{5000, 60000, 300000}[r.Intn(3)]
